@@ -12,6 +12,7 @@ type verifSeamFamilyVersion struct {
 
 func (f *verifSeamFamilyVersion) GetVersionSet() StoreVersionSet { return f.vs }
 func (f *verifSeamFamilyVersion) removeVersion(Version)          {}
+func (f *verifSeamFamilyVersion) GetID() FamilyID                { return 3 }
 
 type verifSeamVersionSet struct {
 	StoreVersionSet
